@@ -185,7 +185,8 @@ impl<const V: &'static str> RenderHtml for Static<V> {
         _extra_attrs: Vec<AnyAttribute>,
     ) {
         // add a comment node to separate from previous sibling, if any
-        if matches!(position, Position::NextChildAfterText) {
+        // (not inside script/style/textarea/noscript, where `<!>` would be literal text)
+        if escape && matches!(position, Position::NextChildAfterText) {
             buf.push_str("<!>")
         }
         if V.is_empty() && escape {
